@@ -1702,3 +1702,19 @@ Proof.
   intros p e. pose proof (dl_bounds p e) as (B1 & B2 & B3 & B4).
   split; [exact B1|]. split; [exists ((e - p) / 2880); apply dl_ps_closed|]. split; [exact B2|]. split; [lia|exact B4].
 Qed.
+
+(* boolean form of wf_op, for closed example histories *)
+Definition wf_opb (o : op) : bool :=
+  match o with
+  | Tick ti => negb (t_entry_fail ti) && negb (t_reward_fail ti) && negb (t_kpi_fail ti)
+  | Skip _ => false
+  | _ => true
+  end.
+
+Lemma wf_opb_ok : forall ops, forallb wf_opb ops = true -> Forall wf_op ops.
+Proof.
+  intros ops H. apply Forall_forall. intros o Ho. rewrite forallb_forall in H. specialize (H o Ho).
+  destruct o as [? ? ?|? ? ?|? ?|? ? ? ?|? ?|ti|?|]; cbn [wf_opb wf_op] in *; try exact I; try discriminate.
+  apply andb_true_iff in H as [H1 H3]. apply andb_true_iff in H1 as [H1 H2].
+  apply negb_true_iff in H1, H2, H3. repeat split; assumption.
+Qed.
